@@ -7,6 +7,9 @@
     segdec <hrp> <str>                    -> ok <ver> <prog> | err <code>
     b58enc <bytes>                        -> ok <str>
     b58dec <str>                          -> ok <bytes> | none
+    b58src <str>                          -> ok <bytes> | none   (Decodeb58 with the digit loop AS WRITTEN: Base58Str.decodeSrc,
+                                             a range over the code points of the string in the variant gen_c15 found)
+    runes <str>                           -> ok <pos>:<codepoint> ...   (what `for i, c := range s` yields: Base58Str.runes)
     addr <str>                            -> ok <kind> <ver> <payload> <outscript|panic> <restr> | err <class>
     pk <script> <testnet:0|1>             -> ok <str> <outscript|panic> | none
     wifdec <str>                          -> ok <ver> <key> <compr:0|1> <canonical:0|1> | err b58|short|long|checksum|flag
@@ -23,6 +26,7 @@ import GocoinV.Model.Addr
 import GocoinV.Model.AddrWif
 import GocoinV.Model.AddrObj
 import GocoinV.Model.Base58Sched
+import GocoinV.Model.Base58Str
 import GocoinV.Base.Ripemd160
 import GocoinV.Base.Proto
 open GocoinV
@@ -116,6 +120,16 @@ def step (_ : Unit) (toks : List String) : Unit × String :=
     | some s => match Base58.decode s with
       | some b => ((), s!"ok {Hex.encode b}")
       | none => ((), "none")
+    | _ => bad
+  | ["b58src", s] =>
+    match Hex.decode s with
+    | some s => match Base58Str.decodeSrc s with
+      | some b => ((), s!"ok {Hex.encode b}")
+      | none => ((), "none")
+    | _ => bad
+  | ["runes", s] =>
+    match Hex.decode s with
+    | some s => ((), " ".intercalate ("ok" :: (Base58Str.runes s).map fun (p, r) => s!"{p}:{r}"))
     | _ => bad
   | ["addr", s] =>
     match Hex.decode s with
